@@ -183,14 +183,36 @@ def ask(m, q):
         return '!error' if q['q'] != 'enum' else ['!error']
 
 
+def ask_via_argument(m, q, as_array):
+    """the same enum question put the way a session puts it: an integer argument object (or an array argument holding
+    integers, as GDB mode delivers arrays) is resolved against the message it belongs to and carries the labels afterwards"""
+    A = m.wl.Arg
+    msg = type('M', (), {'obj': type('O', (), {'type': q['i']})(), 'name': q['m']})()
+    x = A.Int(q['v'])
+    top = A.Array([x, A.Int(q['v'])]) if as_array else x
+    try:
+        top.resolve(None, msg, q['k'] - 1)
+    except RuntimeError:
+        return ['!error']
+    return list(getattr(x, 'labels', []))
+
+
 def table(ctx, rep):
     m = e1.mods()
     e1.Session()               # makes sure the tool has loaded its descriptions as main() does
     pd = protoextract.load()
     qs = queries(ctx, pd)
+    extra = []
     for q in qs:
         q['a'] = ask(m, q)
         rep.case('%s:%s.%s#%d=%d' % (q['q'], q['i'], q['m'], q['k'], q['v']))
+        if q['q'] == 'enum' and q['i'] in pd['proto'] and q['m'] in pd['proto'][q['i']]['msgs'] and q['k'] <= len(pd['proto'][q['i']]['msgs'][q['m']]):
+            # the same question through the argument objects (scalar, or the elements of an array for array arguments)
+            atype = pd['proto'][q['i']]['msgs'][q['m']][q['k'] - 1]['type']
+            q2 = dict(q, a=ask_via_argument(m, q, atype == 'array'), via='array-element' if atype == 'array' else 'argument')
+            extra.append(q2)
+            rep.case('%s:%s.%s#%d=%d' % (q2['via'], q['i'], q['m'], q['k'], q['v']))
+    qs = qs + extra
     rep.sample({'question': {k: qs[len(qs) // 2][k] for k in 'qimkv'}, 'tool_answer': qs[len(qs) // 2]['a']})
     path = os.path.join(tlc.OUT, 'tmp', 'c07-%d.json' % os.getpid())
     json.dump({'proto': pd['proto'], 'queries': qs}, open(path, 'w'))
@@ -204,9 +226,10 @@ def table(ctx, rep):
     rep.traces += len(qs)
     for d in tlc.printed_tuples(r.stdout, 'DIFF'):
         q = d[1]
-        rep.violation('lookup:%s:%s.%s' % (q['q'], q['i'], q['m']),
-                      '%s lookup for %s.%s argument %d value %d: the tool answers %r, the descriptions say %r'
-                      % (q['q'], q['i'], q['m'], q['k'], q['v'], q['a'], tlc.unset(d[2])), {'kind': 'lookup', 'q': {k: q[k] for k in 'qimkv'}})
+        rep.violation('lookup:%s:%s.%s' % (q.get('via', q['q']), q['i'], q['m']),
+                      '%s lookup%s for %s.%s argument %d value %d: the tool answers %r, the descriptions say %r'
+                      % (q['q'], ' (through the %s object)' % q['via'] if 'via' in q else '', q['i'], q['m'], q['k'], q['v'], q['a'], tlc.unset(d[2])),
+                      {'kind': 'lookup', 'q': {k: q[k] for k in 'qimkv'}})
 
 
 def sessions(ctx):
